@@ -293,8 +293,9 @@ func (s *Server) readMessage() (json.RawMessage, error) {
 		}
 
 		// Parse Content-Length header
-		if strings.HasPrefix(line, "Content-Length:") {
-			value := strings.TrimSpace(strings.TrimPrefix(line, "Content-Length:"))
+		// header field names are case-insensitive
+		if len(line) >= len("Content-Length:") && strings.EqualFold(line[:len("Content-Length:")], "Content-Length:") {
+			value := strings.TrimSpace(line[len("Content-Length:"):])
 			contentLength, err = strconv.Atoi(value)
 			if err != nil {
 				return nil, fmt.Errorf("invalid Content-Length: %v", err)
